@@ -65,14 +65,24 @@ func (f *freshFn) inSameObjectBranch(n ast.Node) bool {
 			}
 		}
 		if cond != nil {
-			if be, ok := unparen(cond).(*ast.BinaryExpr); ok && be.Op == token.EQL {
-				ix, okx := unparen(be.X).(*ast.Ident)
-				iy, oky := unparen(be.Y).(*ast.Ident)
-				if okx && oky {
-					_, ax := f.alias[f.p.TypesInfo.ObjectOf(ix)]
-					_, ay := f.alias[f.p.TypesInfo.ObjectOf(iy)]
-					if ax && ay {
-						return true
+			// the condition, or one conjunct of it (case start <= end && dst == src)
+			var conjuncts func(e ast.Expr) []ast.Expr
+			conjuncts = func(e ast.Expr) []ast.Expr {
+				if be, ok := unparen(e).(*ast.BinaryExpr); ok && be.Op == token.LAND {
+					return append(conjuncts(be.X), conjuncts(be.Y)...)
+				}
+				return []ast.Expr{unparen(e)}
+			}
+			for _, cj := range conjuncts(cond) {
+				if be, ok := cj.(*ast.BinaryExpr); ok && be.Op == token.EQL {
+					ix, okx := unparen(be.X).(*ast.Ident)
+					iy, oky := unparen(be.Y).(*ast.Ident)
+					if okx && oky {
+						_, ax := f.alias[f.p.TypesInfo.ObjectOf(ix)]
+						_, ay := f.alias[f.p.TypesInfo.ObjectOf(iy)]
+						if ax && ay {
+							return true
+						}
 					}
 				}
 			}
